@@ -15,7 +15,8 @@ CONSTANTS
     EmitCat,    \* TRUE: print one access path per distinct state (the catalogue)
     RegCust,    \* TRUE: the custom node attribute is registered as a feature
     ExtraAct,   \* features enabled on top of the defaults, e.g. {"iou"}
-    Seeds       \* set of call sequences; exploration starts after each of them
+    Seeds,      \* set of call sequences; exploration starts after each of them
+    MaxStroke   \* 0: every stroke (pixel subset of a frame) is fired; k > 0: only strokes of <= k pixels
 
 VARIABLES S, path
 
@@ -34,6 +35,7 @@ EmptyS == [time |-> [n \in Node |-> NoT], E |-> {}, tid |-> [n \in Node |-> None
 \* feature masks offered to enable / disable (bits: area iou circ lid pos tid perim axes, 256 = unknown)
 SwitchMasks == IF HasSeg THEN {1, 2, 4, 8, 3, 5, 6, 12, 16, 64, 128, 15, 256, 257}
                ELSE {8, 32, 40, 1, 256, 264}
+StrokeOK(b) == MaxStroke = 0 \/ Cardinality({r \in 0..(P - 1) : Bit(b, r)}) <= MaxStroke
 \* the call alphabet offered in state s (refused calls included)
 Ids(s) == 1..(IF s.maxT + 2 <= MaxId THEN s.maxT + 2 ELSE MaxId)
 Calls(s) ==
@@ -49,12 +51,21 @@ Calls(s) ==
     \cup (IF KSetAttr \in Kinds THEN {<<KSetAttr, n, k, 1, 0>> : n \in Node, k \in 1..(IF HasSeg THEN 8 ELSE 4)} ELSE {})
     \cup (IF KPaint \in Kinds /\ HasSeg
             THEN \* track id and force only matter when the stroke creates a node
-                 {<<KPaint, t, b, v, 2 * i + f>> : t \in Times, b \in 1..(2 ^ P - 1),
+                 {<<KPaint, t, b, v, 2 * i + f>> : t \in Times, b \in {x \in 1..(2 ^ P - 1) : StrokeOK(x)},
                                                     v \in {w \in 1..N : ~Has(s, w)}, i \in {1, s.maxT + 1}, f \in {0, 1}}
-                 \cup {<<KPaint, t, b, v, 2>> : t \in Times, b \in 1..(2 ^ P - 1), v \in {0} \cup Present(s)}
+                 \cup {<<KPaint, t, b, v, 2>> : t \in Times, b \in {x \in 1..(2 ^ P - 1) : StrokeOK(x)}, v \in {0} \cup Present(s)}
             ELSE {})
     \cup (IF KEnable \in Kinds
             THEN {<<KEnable, m, r, 0, 0>> : m \in SwitchMasks, r \in {0, 1}} \cup {<<KDisable, m, 0, 0, 0>> : m \in SwitchMasks}
+            ELSE {})
+    \cup (IF KPAddNode \in Kinds
+            THEN {<<KPAddNode, n, t, i, l>> : n \in Node, t \in Times, i \in 1..(s.maxT + 1), l \in {0, 1, s.maxL + 1}}
+                 \cup {<<KPDelNode, n, 0, 0, 0>> : n \in Node}
+                 \cup {<<KPAddEdge, u, v, 0, 0>> : u \in Node, v \in Node}
+                 \cup {<<KPDelEdge, u, v, 0, 0>> : u \in Node, v \in Node}
+                 \cup {<<KPUpdTids, n, i, l, 0>> : n \in Node, i \in 1..(s.maxT + 1), l \in {0, 1, s.maxL + 1}}
+                 \cup {<<KPUpdAttrs, n, k, 2, 0>> : n \in Node, k \in {1, 2}}
+                 \cup (IF HasSeg THEN {<<KPUpdSeg, n, b, a, 0>> : n \in Node, b \in 1..(2 ^ P - 1), a \in {0, 1}} ELSE {})
             ELSE {})
     \cup (IF Hist THEN {<<KUndo, 0, 0, 0, 0>>, <<KRedo, 0, 0, 0, 0>>} ELSE {})
 
@@ -129,8 +140,11 @@ View  == IF LookupOK(Obs(S))
 \* o = Obs(S) and pf = PF(o) are computed ONCE per state by the invariants below (LET values are cached)
 X(c, r, o, pf) ==
     LET acc == r.ok /\ IsEdit(c)
-        u   == IF acc THEN Undo(r.s) ELSE [s |-> r.s, ret |-> FALSE]
-        rr  == IF acc THEN Redo(u.s) ELSE [s |-> r.s, ret |-> FALSE]
+        pt  == PrimTriple(S, c)
+        u   == IF IsPrim(c) THEN [s |-> pt[2].s, ret |-> pt[2].ok]
+               ELSE IF acc THEN Undo(r.s) ELSE [s |-> r.s, ret |-> FALSE]
+        rr  == IF IsPrim(c) THEN [s |-> pt[3].s, ret |-> pt[3].ok]
+               ELSE IF acc THEN Redo(u.s) ELSE [s |-> r.s, ret |-> FALSE]
     IN [pre |-> o, pf |-> pf, c |-> c, ok |-> r.ok, err |-> r.err, emit |-> r.emit, ret |-> r.ret,
         post |-> Obs(r.s), u_ret |-> u.ret, u_post |-> Obs(u.s), r_ret |-> rr.ret, r_post |-> Obs(rr.s)]
 AllXof(o, pf) == UNION {{X(c, r, o, pf) : r \in StepSet(S, c)} : c \in {d \in Calls(S) : InDomain(S, d)}}
